@@ -95,7 +95,7 @@ static inline void* lockfree_ring_buffer_trypop(lockfree_ring_buffer_t* rb) {
   uint64_t low = atomic_load_explicit(&rb->low, memory_order_acquire);
   const uint64_t index = low & rb->power_of_2_mod;
   void* const ret = rb->buffer[index];
-  if (ret && high > low &&
+  if (ret && (int64_t)(high - low) > 0 &&
       atomic_compare_exchange_weak_explicit(&rb->low, &low, low + 1,
                                             memory_order_acquire,
                                             memory_order_relaxed)) {
